@@ -1,7 +1,7 @@
 (* C07 -- getelementptr result types are computed correctly and consistently. *)
 From Coq Require Import List Bool NArith ZArith.
 From LLIR Require Import Lib.Bytes Model.Types Model.GoEval Model.Gep.
-From LLIR Require Import Proofs.GepProofs Proofs.GepRefinement.
+From LLIR Require Import Proofs.GepProofs Proofs.GepRefinement Proofs.GepBodiesRefinement.
 Import ListNotations.
 
 (* the walker of internal/gep against LLVM's rule, for element types of any nesting and index lists
@@ -62,3 +62,28 @@ Theorem C07_scalable_base_refuted :
   exists elem src, result_type (fun _ => None) elem src [new_index 0] = Ok (TVec false 4 (TPtr elem 0))
                    /\ src = TVec true 4 (TPtr elem 0).
 Proof. exact scalable_base_refuted. Qed.
+
+(* the regenerated tie with the bodies of identified struct types in the reified Go object: the element type
+   and the source type unfolded d times (reify_ty_in: an identified struct is the *types.StructType with
+   TypeName set and Fields the reified fields of its body, to depth d-1; Fields = nil without a body or at
+   depth 0), for every d that covers the identified-struct bodies the walk enters (enough_depth: gep_need <= d;
+   List.length idxs <= S d is enough) -- the regenerated function returns the model's result type unfolded to
+   the depth left, panics included.  C07_walker_generated_bodies_total: below that depth the regenerated
+   function panics where the tree ends, so the equation holds for every d with the test made explicit. *)
+Theorem C07_walker_generated_bodies : forall bodies elem src idxs d,
+  enough_depth bodies d elem src idxs ->
+  run_gep_in bodies d elem src idxs = expect_in bodies (d - gep_need bodies elem src idxs) (result_type bodies elem src idxs).
+Proof. exact gep_result_generated_bodies. Qed.
+Print Assumptions C07_walker_generated_bodies.
+Theorem C07_walker_generated_bodies_length : forall bodies elem src idxs d,
+  List.length idxs <= S d ->
+  run_gep_in bodies d elem src idxs = expect_in bodies (d - gep_need bodies elem src idxs) (result_type bodies elem src idxs).
+Proof. exact gep_result_generated_bodies_length. Qed.
+Print Assumptions C07_walker_generated_bodies_length.
+Theorem C07_walker_generated_bodies_total : forall bodies elem src idxs d,
+  run_gep_in bodies d elem src idxs =
+  if Nat.leb (gep_need bodies elem src idxs) d
+  then expect_in bodies (d - gep_need bodies elem src idxs) (result_type bodies elem src idxs)
+  else go_panic.
+Proof. exact gep_result_generated_bodies_total. Qed.
+Print Assumptions C07_walker_generated_bodies_total.
